@@ -230,6 +230,13 @@ Proof.
   - intros Hne. destruct (models st); [congruence|reflexivity].
 Qed.
 
+Lemma keep_best_copy_independent self_score outs keep :
+  g_aliases Gen_gridsearch keep (g_run Gen_gridsearch self_score outs) = false.
+Proof.
+  unfold g_aliases. change (k_keep_deepcopies Gen_gridsearch) with true. cbn [negb].
+  rewrite andb_false_r. reflexivity.
+Qed.
+
 Lemma keep_best_false_pure : forall e, In e (k_effects Gen_gridsearch) -> e_recv e = RSelf ->
   pure_on_self (e_what e) = true \/ exists g, In g (e_guards e) /\ guard_excluded g = true.
 Proof.
@@ -256,7 +263,8 @@ Proof. intros a Ha. vm_compute in *. tauto. Qed.
 
 Lemma skeleton_flags : Gen_combine_matches_model = true /\ k_grid_product Gen_gridsearch = true /\
   k_cartesian_lists Gen_gridsearch = true /\ k_skip_valueerror Gen_gridsearch = true /\ k_init_inf Gen_gridsearch = true /\
-  k_return_scores_zip Gen_gridsearch = true /\ k_keep_copies_best Gen_gridsearch = true.
+  k_return_scores_zip Gen_gridsearch = true /\ k_keep_copies_best Gen_gridsearch = true /\
+  k_keep_deepcopies Gen_gridsearch = true.
 Proof. repeat split. Qed.
 
 (* ---------- hypotheses are satisfiable / non-trivial examples ---------- *)
